@@ -807,6 +807,28 @@ def canonicalise_helper_fields(d):
     return mapping
 
 
+def redirect_into_calls(d):
+    """`x.into()` / `T::try_from(x)` written through the blanket impls of core (`impl<T, U: From<T>> Into<U> for T`) resolve to core's generic body, which is not part
+    of the crate: the call is retargeted to the crate's own `impl From<T> for U` it ends up in, so that the conversion is seen (and spliced) like any local call."""
+    names = {b["def"] for b in d["bodies"]}
+    n = 0
+    for b in d["bodies"]:
+        for blk in b["blocks"]:
+            t = blk["term"]
+            if t["k"] != "call" or not t.get("callee") or t["callee"].get("local"):
+                continue
+            m = re.match(r"<(.+) as std::convert::(Into|TryInto)<(.+)>>::(into|try_into)$", t["callee"].get("declared") or "")
+            if not m:
+                continue
+            src, _, dst, _ = m.groups()
+            tr, fn = ("From", "from") if m.group(2) == "Into" else ("TryFrom", "try_from")
+            cand = f"<{dst} as std::convert::{tr}<{src}>>::{fn}"
+            if cand in names:
+                t["callee"].update({"base": cand, "rbase": cand, "resolved": cand, "local": True, "via_blanket_impl": t["callee"]["declared"]})
+                n += 1
+    return n
+
+
 class Facts:
     def __init__(self, path):
         d = json.load(open(path))
@@ -816,6 +838,7 @@ class Facts:
         except Exception as e:   # never let the convenience layer break the analysis: without it the rules fail closed on renamed items
             self.renamed_vocabulary = {"error": f"{type(e).__name__}: {e}"}
         self.renamed_fields = canonicalise_helper_fields(d)
+        redirect_into_calls(d)
         self.meta = {k: d[k] for k in ("crate", "nonce", "rustc", "test_harness", "debug_assertions", "missing_bodies") if k in d}
         self.adt_list = d["adts"]  # several derive-generated ADTs can share one path (serde's `__Field` per enum variant)
         self.adts = {}
